@@ -499,7 +499,9 @@ func (s *dohSession) exchange(c *cell) (o observation) {
 	var res tbench.Result
 	for attempt := 0; attempt < 3; attempt++ {
 		o.tries = attempt + 1
-		if s.p.get {
+		if s.p.jsonWire {
+			res = s.c.JSON(c.jsonQ, s.e.answerWait)
+		} else if s.p.get {
 			res = s.c.Get(c.wire, s.e.answerWait)
 		} else {
 			res = s.c.Post(c.wire, s.e.answerWait)
